@@ -440,6 +440,7 @@ func (fg *FunctionGenerator) GenerateCustom(ast parser2.AST, gc funcGen.Generato
 	}
 	if op, ok := ast.(*parser2.Operate); ok {
 		// AND and OR with short evaluation
+		impl := g.GetOpImpl(op.Operator)
 		switch op.Operator {
 		case "&":
 			aFunc, aPure, err := g.GenerateFunc(op.A, gc)
@@ -470,7 +471,12 @@ func (fg *FunctionGenerator) GenerateCustom(ast parser2.AST, gc funcGen.Generato
 						}
 					}
 				} else {
-					return nil, fmt.Errorf("not a bool: %s", TypeName(aVal))
+					// no short evaluation possible, use the operation matrix
+					bVal, err := bFunc(st, cs)
+					if err != nil {
+						return nil, err
+					}
+					return impl.Calc(st, aVal, bVal)
 				}
 			}, aPure && bPure, nil
 		case "|":
@@ -502,7 +508,12 @@ func (fg *FunctionGenerator) GenerateCustom(ast parser2.AST, gc funcGen.Generato
 						}
 					}
 				} else {
-					return nil, fmt.Errorf("not a bool: %s", TypeName(aVal))
+					// no short evaluation possible, use the operation matrix
+					bVal, err := bFunc(st, cs)
+					if err != nil {
+						return nil, err
+					}
+					return impl.Calc(st, aVal, bVal)
 				}
 			}, aPure && bPure, nil
 		}
@@ -667,14 +678,14 @@ func New() *FunctionGenerator {
 			}
 			return false, false
 		}).
-		AddOpImpl("|", true, Or(f)).
-		AddOpImpl("&", true, And(f))
+		AddOpImpl("|", false, Or(f)).
+		AddOpImpl("&", false, And(f))
 
 	f.FunctionGenerator = fg
 	equal := Equal(f)
 	less := Less(f)
 
-	fg.AddOpImpl("=", true, equal)
+	fg.AddOpImpl("=", false, equal)
 	fg.AddOp("!=", false, func(st funcGen.Stack[Value], a Value, b Value) (Value, error) {
 		eq, err := equal.Calc(st, a, b)
 		return !(eq.(Bool)), err
